@@ -18,7 +18,8 @@ GB = {"all": [], "a": ["a"], "b": ["b"], "ab": ["a", "b"], "expr": ["CONCAT('_',
 ORDER = {"none": ("", []), "fdesc": ("f DESC", ["f"]), "a_time": ("a, _time", ["a", "_time"]), "timedesc_f": ("_time DESC, f", ["_time", "f"])}
 LIM = {"none": "", "l2": "LIMIT 2", "l2o1": "LIMIT 1, 2"}
 FROM = {"t": "t", "sub_ab": "(SELECT f, g FROM t GROUP BY a, b)", "sub_a": "(SELECT f, g FROM t GROUP BY a)",
-        "sub_ord": "(SELECT f, g FROM t GROUP BY a, b ORDER BY f DESC LIMIT 3)"}
+        # (a total order: with ties at the cut LIMIT may keep either row, and the two plans need not agree)
+        "sub_ord": "(SELECT f, g FROM t GROUP BY a, b ORDER BY f DESC, a, b, _time LIMIT 3)"}
 TABLE_SQL = {"all": "SELECT SUM(w) AS f, SUM(x) AS g FROM s GROUP BY period(1s)",
              "ab": "SELECT SUM(w) AS f, SUM(x) AS g FROM s GROUP BY a, b, period(1s)",
              "a": "SELECT SUM(w) AS f, SUM(x) AS g FROM s GROUP BY a, period(1s)"}
